@@ -58,7 +58,7 @@ def consts(family, prop, **kw):
 
 
 def tlc(res, prop, family, name, invariants, timeout=1500, **kw):
-    r = vlib.run_tlc("Codec", name, cfg_text=vlib.cfg_text(consts(family, prop, **kw), invariants=invariants), timeout=timeout, heap="6g")
+    r = vlib.run_tlc("Codec", name, cfg_text=vlib.cfg_text(consts(family, prop, **kw), invariants=invariants), timeout=timeout, heap="6g", workers=4)
     vlib.tlc_ok(r, name)
     if r["violated"]:
         raise Undecided("MODEL-DRIFT: %s violates %s in the model\n%s" % (name, r["violated"], r["out"][-3000:]))
@@ -95,6 +95,7 @@ class Verdicts:
         self.res, self.prop = res, prop
         self.known = {k["deviation"]: k for k in vlib.known_findings(prop)}
         self.drift = []
+        self.pending = {}
 
     def violation(self, msg, replay):
         self.res.violation(msg, replay)
@@ -102,7 +103,10 @@ class Verdicts:
     def deviation(self, devs, example, replay, what):
         for d in devs:
             if d in self.known:
-                self.res.known_finding(self.known[d], example)
+                if len(devs) == 1:
+                    self.res.known_finding(self.known[d], example)     # a case that shows this deviation alone
+                else:
+                    self.pending.setdefault(d, example)
             else:
                 self.res.violation("deviation %s observed but not listed as known: %s" % (d, what), replay)
 
@@ -111,6 +115,8 @@ class Verdicts:
             self.drift.append(msg)
 
     def finish(self):
+        for d, example in self.pending.items():
+            self.res.known_finding(self.known[d], example)             # no-op when a cleaner example exists
         if not self.res.violations and self.drift:
             self.res.finish()
             raise Undecided("MODEL-DRIFT: the property held but the code's layout differs from Codec.tla: " + " | ".join(self.drift[:3]))
@@ -248,21 +254,22 @@ def run_c29(res, tier, rng, binary):
                 ser["reclen"], desc, "with 8-byte alignment padding" if case["align"] else "without padding", case["reclen"]), replay)
             return
         layout_ok = ser["data"] == data_hex
-        bad = False
+        bad = deviated = False
         for reader in ("getcolumn", "tocs", "rows_tocs"):
             r = o.get(reader) or {}
             real = r.get("cols") if not (r.get("panic") or r.get("err")) else "failed: %s" % (r.get("panic") or r.get("err"))
             if real == pure[reader]:
                 continue
             if case["hit"] and real == dev[reader]:
-                stats["known_deviation"] += 1
+                deviated = True
                 v.deviation(case["hit"], {"schema": case["sch"], "align": case["align"], "reader": reader, "got": str(real)[:200]}, replay, desc)
                 continue
             bad = True
             v.violation("%s of rows serialised from %s returned %s; the original columns are %s" % (
                 reader, desc, str(real)[:500], str(pure[reader])[:500]), replay)
+        stats["known_deviation"] += deviated and not bad
+        stats["identical"] += not bad and not deviated
         if not bad:
-            stats["identical"] += 1
             if not layout_ok:
                 v.note_drift("C29 row bytes of %s are %s, model lays them out as %s" % (desc, ser["data"][:200], data_hex[:200]))
         res.sample({"schema": case["sch"], "align": case["align"], "rows": c["nrows"], "reclen": case["reclen"], "layout": case["wl"]}, limit=3)
@@ -372,7 +379,7 @@ def run_c27(res, tier, rng, binary):
         rp = o.get("rpc") or {}
         if rp.get("driver_error"):
             raise Undecided("rpc set-up failed: %s" % rp)
-        bad = False
+        bad = deviated = False
         for path in ("plain", "server", "client"):
             r = o.get(path)
             detail = ""
@@ -387,15 +394,16 @@ def run_c27(res, tier, rng, binary):
                 continue
             hits = [h for h in case["hit"] if not (h == "AllEmptyNoColumns" and path != "client") and not (h == "EmptyBucketDropped" and path == "client")]
             if hits and real == dev[path]:
-                stats["known_deviation"] += 1
+                deviated = True
                 # attribute to the deviations that change this path's result
                 v.deviation(hits, {"dataset": [(b["len"], b["types"]) for b in case["bks"]], "decoder": path, "got": str(real)[:200]}, replay, desc)
                 continue
             bad = True
             v.violation("%s decoded through '%s' gives %s; the input buckets are %s" % (
                 desc, path, (str(real) + (" (%s)" % detail if real == "failed" else ""))[:600], str(pure)[:600]), replay)
+        stats["known_deviation"] += deviated and not bad
+        stats["identical"] += not bad and not deviated
         if not bad:
-            stats["identical"] += 1
             bk = conv["book"]
             want = case["book"]
             got = {"length": bk["length"], "start": [bk["start"].get(k) for k in c["keys"]], "lens": [bk["lengths"].get(k) for k in c["keys"]],
@@ -451,7 +459,7 @@ def key_of(plen):
         ls = rest - 1
     if ls < len(uid) + 1:
         raise Undecided("path length %d leaves no room for a unique symbol" % plen)
-    sym = "s" + uid + "y" * (ls - len(uid) - 1)
+    sym = "s" + uid + "_" * (ls - len(uid) - 1)
     ag = "g" * (rest - ls)
     if len(ag) > 255 or len(sym) > 255:
         raise Undecided("component too long for path length %d" % plen)
@@ -474,7 +482,9 @@ def c28_concretise(rng, case, cid, root, year_now):
                 names.append(nth_name(len(names), l))
                 types.append(t)
         maxname = max([len(n) for n in names] + [0])
-        create = maxname <= 32 and rng.random() < 0.5
+        # DataService.Create knows the 11 wire types and cuts names at 32 bytes; everything else reaches the
+        # WAL through the bucket WriteCSM creates on the first write
+        create = maxname <= 32 and "BOOL" not in types and rng.random() < 0.5
         coldata = [[] for _ in names]
         epochs, cmdinfo = [], []
         for cm, slot in zip(mycmds, slots):
@@ -562,7 +572,7 @@ def run_c28(res, tier, rng, binary):
         t2 = sorted(rng.sample(ALLT, 2))
         big = [rng.choice(ALLT)]
         runs = [("Codec_c28_a.cfg", dict(Types=sorted(set(t2) | set(big)), BigTypes=big, PathLens=PATHS, NameLens=NAMES, ColCounts=COUNTS, MaxCmds=1)),
-                ("Codec_c28_b.cfg", dict(Types=big, BigTypes=big, PathLens=[22, 300], NameLens=[31, 256, 300], ColCounts=[2, 256], MaxCmds=3, TwoBuckets=True))]
+                ("Codec_c28_b.cfg", dict(Types=big, BigTypes=big, PathLens=[22, 300], NameLens=[1, 32, 255, 300], ColCounts=[2, 255, 256], MaxCmds=3, TwoBuckets=True, BigPayload=0))]
     else:
         big = sorted(rng.sample(ALLT, 3))
         runs = [("Codec_c28_a.cfg", dict(Types=ALLT, BigTypes=big, PathLens=PATHS, NameLens=NAMES, ColCounts=COUNTS, MaxCmds=1)),
@@ -571,7 +581,7 @@ def run_c28(res, tier, rng, binary):
     ovf = None
     for name, kw in runs:
         cs, r = tlc(res, "C28", "C28", name, inv, **kw)
-        ovf = (r["records"].get("OVF") or [ovf])[0]
+        ovf = ovf or (r["records"].get("OVF") or [None])[0]
         tg_cases += cs
     res.cov["overflowing_size_classes_found_by_tlc"] = ovf
     cases = []
@@ -609,21 +619,22 @@ def run_c28(res, tier, rng, binary):
                     k += 1
         layout_ok = enc["hex"] == hx(want)
         orig = [[s["nhex"], s["code"]] for s in inn]
-        bad = False
+        bad = deviated = False
         for which in ("dec", "dec_tail"):
             d = o[which]
             real = "panic: " + d["panic"] if d.get("panic") else [[s["nhex"], s["code"]] for s in d["shapes"]]
             if real == orig and d.get("bytes") == len(enc["hex"]) // 2:
                 continue
             if case["hit"]:
-                stats["known_deviation"] += 1
+                deviated = True
                 v.deviation(case["hit"], {"shapes": case["runs"], "got": str(real)[:200]}, replay, desc)
                 continue
             bad = True
             v.violation("DSVFromBytes(DSVToBytes(x)) for %s gives %s (%s bytes consumed of %d); the original shapes are %s" % (
                 desc, str(real)[:400], d.get("bytes"), len(enc["hex"]) // 2, str(orig)[:400]), replay)
+        stats["known_deviation"] += deviated and not bad
+        stats["identical"] += not bad and not deviated
         if not bad:
-            stats["identical"] += 1
             if not layout_ok:
                 v.note_drift("DSV bytes of %s are %s, model lays them out as %s" % (desc, enc["hex"][:200], hx(want)[:200]))
 
@@ -703,7 +714,7 @@ def run_c28(res, tier, rng, binary):
         copies = [("the bytes handed to replication", tg["parse"])]
         if tg.get("wal_same") is False:
             copies.append(("the bytes in the WAL file", tg["wal_parse"]))
-        bad = False
+        bad = deviated = False
         for what, p in copies:
             real = decoded(p)
             cands = [strip(originals(order)) for order in ([matched] if matched is not None else orders)]
@@ -720,13 +731,14 @@ def run_c28(res, tier, rng, binary):
                         if real[:first_bad] == strip(cand[:first_bad]):
                             ok_prefix = True
                 if ok_prefix:
-                    stats["known_deviation"] += 1
+                    deviated = True
                     v.deviation(case["hit"], {"group": desc, "decoded": (real if isinstance(real, str) else "wrong commands")[:200]}, replay, desc)
                     continue
             bad = True
             v.violation("decoding %s of %s gives %s; the written commands are %s" % (what, desc, str(real)[:700], str(cands[0])[:700]), replay)
+        stats["known_deviation"] += deviated and not bad
+        stats["identical"] += not bad and not deviated
         if not bad:
-            stats["identical"] += 1
             if matched is None:
                 v.note_drift("C28 group bytes of %s differ from the model's layout (len %d, model total %d)" % (desc, len(real_bytes), case["total"]))
         res.sample({"group": desc, "total_bytes": case["total"], "layout_of_first_command": {k: x for k, x in case["cmds"][0]["enc"].items() if k != "shapes"}}, limit=3)
@@ -734,7 +746,9 @@ def run_c28(res, tier, rng, binary):
     try:
         run_chunked(binary, cases, 400, handle, tag="c28", timeout=6000)
     finally:
-        shutil.rmtree(root, ignore_errors=True)
+        for d in os.listdir(os.path.dirname(root)):
+            if d.startswith("root_C28"):
+                shutil.rmtree(os.path.join(os.path.dirname(root), d), ignore_errors=True)
     res.cov.update(stats)
     if stats["write_rejected"] > len(cases) // 4:
         raise Undecided("%d of %d writes were rejected: the concretisation does not produce acceptable writes" % (stats["write_rejected"], len(cases)))
